@@ -439,6 +439,9 @@ func Quiesce(min time.Duration) {
 	}
 }
 
+// errStale ends a run whose key store changes do not arrive any more (the event that says so is recorded)
+var errStale = errors.New("key store change did not arrive")
+
 var ErrNoReload = errors.New("the rewritten key store was not served by the JWKS endpoint within 10 s")
 
 // Settle waits until plan version idx is served by the JWKS endpoint (valid versions) and no
@@ -466,7 +469,13 @@ func (e *Env) Settle(idx int) error {
 			}
 
 			if time.Now().After(deadline) {
-				return ErrNoReload
+				// ten seconds after a valid key store was written nothing of it is served: the change
+				// never arrived (the specification judges the event); the run goes on
+				Quiesce(0)
+				e.Emit(Event{Ev: "stale", ID: fmt.Sprintf("k%d", idx), Seq: e.Next(), Ver: idx,
+					Note: "the rewritten key store was not served by the JWKS endpoint within 10 s"})
+
+				return errStale
 			}
 
 			time.Sleep(200 * time.Microsecond)
@@ -629,7 +638,7 @@ func RunStress(fx *Fixtures, o StressOptions) (map[string]int, error) {
 
 		env.Stop()
 
-		if rerr != nil {
+		if rerr != nil && !errors.Is(rerr, errStale) {
 			return stats, rerr
 		}
 	}
@@ -764,6 +773,9 @@ func (e *Env) restore() error {
 	}
 
 	err := e.Settle(1)
+	if errors.Is(err, errStale) {
+		err = nil // judged where it is observed during a run; here only the initial state is restored
+	}
 
 	e.mu.Lock()
 	e.events = keep
